@@ -16,7 +16,7 @@ MANIFEST = {
  'technique': 'Lean 4 proof (case analysis over commands, invariant over histories, reader-machine invariant for reload) + differential correspondence against a live bot',
  'design_ref': 'DESIGN.md §6 C02',
 }
-THEOREMS = ['C02.cap_growth_entitled', 'C02.no_new_owner_step', 'C02.not_granted_owner', 'C02.reload_caps_sub',
+THEOREMS = ['C02.capSites_table', 'C02.cap_growth_entitled', 'C02.no_new_owner_step', 'C02.not_granted_owner', 'C02.reload_caps_sub',
             'C02.no_new_owner_reload', 'C02.reload_preserves_inv', 'C02.step_preserves_inv', 'C02.history_safe',
             'C02.st0_inv', 'C02.cfg0_hashSafe']
 TRUSTED = ['Lean 4.33.0 kernel; axioms ⊆ {propext, Classical.choice, Quot.sound}',
@@ -396,7 +396,7 @@ def fill_model(groups):
             c.model = m
 
 def run(ctx):
-    build = leanbuild.ensure(PROPERTY, THEOREMS, thorough=ctx.thorough, extractors=['Preserve', 'IrcDbCaps'])
+    build = leanbuild.ensure(PROPERTY, THEOREMS, thorough=ctx.thorough, extractors=['Preserve', 'IrcDbCaps', 'CapSites'])
     n = 2500 if ctx.thorough else 150
     groups = explore(ctx, n)
     if build.driver_ok:
